@@ -16,13 +16,14 @@ MODES = [[], ['--disable-shared', '--enable-static'],
          ['--enable-shared', '--enable-static']]
 
 
-def mc_cfg(n):
-    return ('CONSTANT N = %d\nSPECIFICATION Spec\nINVARIANT Report\n'
-            'CHECK_DEADLOCK FALSE\n' % n)
+def mc_cfg(n, keep_first=False):
+    return ('CONSTANTS N = %d KeepFirst = %s\nSPECIFICATION Spec\n'
+            'INVARIANT Report\nCHECK_DEADLOCK FALSE\n' % (
+                n, 'TRUE' if keep_first else 'FALSE'))
 
 
 def gen_cfg(n, nseeds, seed):
-    return ('CONSTANTS N = %d NSeeds = %d SeedBase = %d\n'
+    return ('CONSTANTS N = %d KeepFirst = FALSE NSeeds = %d SeedBase = %d\n'
             'SPECIFICATION GenSpec\nINVARIANT Emit\nCHECK_DEADLOCK FALSE\n'
             % (n, nseeds, seed))
 
@@ -109,13 +110,25 @@ def main(argv):
     ck = Check('C14', argv)
     n = 3
     r = tlc('Link', mc_cfg(n))
-    if r.error and not r.prints:
+    if r.error and not r.prints and 'No error has been found' not in r.out:
         raise MachineryError(r.tail())
-    fails = [p[1] for p in r.prints if isinstance(p, list) and p and
+    now_fail = [p[1] for p in r.prints if isinstance(p, list) and p and
+                p[0] == 'DESIGN-FAIL']
+    ck.add_model(r, 'Link (keep-last): all DAGs of %d libraries x kinds x '
+                 'listing orders x called objects' % n)
+    ck.note('design_model_failing_configs', len(now_fail))
+    if now_fail:
+        ck.report('C14:design:link-order', 'the design model of the current '
+                  'forwarding/de-duplication predicts failing links: %s' %
+                  json.dumps(now_fail[:3]))
+    # vacuity guard + source of hard cases: the pinned tree's keep-first rule
+    r0 = tlc('Link', mc_cfg(n, keep_first=True))
+    fails = [p[1] for p in r0.prints if isinstance(p, list) and p and
              p[0] == 'DESIGN-FAIL']
-    ck.add_model(r, 'Link: all DAGs of %d libraries x kinds x listing '
-                 'orders x called objects' % n)
-    ck.note('design_model_failing_configs', len(fails))
+    ck.note('design_model_failing_configs_keep_first', len(fails))
+    if not fails:
+        ck.machinery('vacuity guard: the keep-first model predicts no '
+                     'failing link')
     ns = 36 if ck.quick else 900
     g = tlc_ok('Link_Gen', gen_cfg(n, ns, ck.seed))
     cases = [p for p in g.prints if isinstance(p, dict) and 'elibs' in p]
@@ -143,8 +156,8 @@ def main(argv):
         tr['events'][0]['kind'] = [
             ('shared' if shared_on else 'static') if k == 'library' else k
             for k in c['kind']]
-    rej, st = validate_traces('Link_Trace', 'CONSTANT N = %d\n'
-                              'SPECIFICATION TraceSpec\n'
+    rej, st = validate_traces('Link_Trace', 'CONSTANTS N = %d KeepFirst = '
+                              'FALSE\nSPECIFICATION TraceSpec\n'
                               'CHECK_DEADLOCK FALSE\n' % n, traces, chunk=50)
     predicted = st['info'].get('DESIGN-PREDICTS-LINK-FAILURE', 0)
     ck.traces = len(traces)
